@@ -69,6 +69,12 @@ Post(ev) ==
     [] op = "hash_eq" -> \* two values, observed equality, their hashes: equal values hash equally
          /\ a[3].v = (Arg(a[1]) # FNan /\ Arg(a[2]) # FNan /\ FCmp(Arg(a[1]), Arg(a[2])) = 0)
          /\ (a[3].v => ZCmp(Zj(a[4]), Zj(a[5])) = 0)
+    [] op = "chash_eq" -> \* the same for complex values (mpc against mpc / complex / mpf / int / float): componentwise exact equality
+         LET z == CArg(a[1])  w == CArg(a[2])
+             eqx == /\ z[1] # FNan /\ z[2] # FNan /\ w[1] # FNan /\ w[2] # FNan
+                    /\ FCmp(z[1], w[1]) = 0 /\ FCmp(z[2], w[2]) = 0
+         IN /\ a[3].v = eqx
+            /\ (a[3].v => ZCmp(Zj(a[4]), Zj(a[5])) = 0)
     [] op = "mag" -> PostMag(Arg(a[1]), o)
     [] op = "frexp" -> PostFrexp(Arg(a[1]), F(ev.o.v[1]), ev.o.v[2].v)
     [] op = "ldexp" -> PostLdexp(Arg(a[1]), ZToInt(Zj(a[2])), o)
